@@ -693,6 +693,7 @@ func (env *Zlisp) ParseFile(file string) ([]Sexp, error) {
 
 	env.parser.Reset()
 	env.parser.NewInput(bufio.NewReader(in))
+	env.parser.AddEndOfText()
 	exp, err = env.parser.ParseTokens()
 	if err != nil {
 		return nil, fmt.Errorf("Error on line %d: %v (ParseFile err = '%#v')\n", env.parser.Linenum(), err, err)
@@ -705,6 +706,7 @@ func (env *Zlisp) ParseFile(file string) ([]Sexp, error) {
 
 func (env *Zlisp) LoadStream(stream io.RuneScanner) error {
 	env.parser.ResetAddNewInput(stream)
+	env.parser.AddEndOfText()
 	expressions, err := env.parser.ParseTokens()
 	if err != nil {
 		return fmt.Errorf("Error on line %d: %v (LoadStream err='%#v')\n", env.parser.Linenum(), err, err)
